@@ -79,10 +79,7 @@ def run(prog: Program, col: Collector, tier: str, refs: Optional[Refs] = None, c
     # parametrised ops (SumOp(axis=-1) / SumOp(axis=-2), GetitemOp(offset)) are distinguished by their parameters when they are interned
     col.rule("R01.21", "the interning key of a parametrised op is its parameters, not a hash of them", floor=2)
     from . import c07
-    for c in prog.classes.values():
-        m = c.methods.get("hash_args_kwargs")
-        if m is not None:
-            c07._no_hash_in_key(col, m)
+    c07._op_key_overrides(prog, col, refs)
     # eager evaluation of Number operands runs the scalar implementation of an op, of Tensor operands the array one: they must agree
     from . import numerics
     numerics.run_agreement(prog, col, refs, cat, rule="R01.13")
